@@ -629,7 +629,7 @@ pub fn run(ctx: &Arc<Ctx>) {
     let _ = frob_images();
     let pr = sm9::params();
     let (pp, n) = (pr.p.clone(), pr.n.clone());
-    ctx.set_rule("Fp and mod N: limb-pattern + boundary alphabets, unary ops on all, binary ops on all x extreme (thorough all x all). Fp2: all 24x24 boundary elements, unary on all, binary on all pairs. Fp4: all 6^4 elements over {0,1,p-1,2,seeded x2}, unary on all, binary on all x 64 (thorough all pairs). Fp12: one element per subset of zero components (4096) + basis + +-1: unary ops (sqr, inv, neg, double, triple, div2, Frobenius 1/2/3/6, to_bytes) on all, pow with boundary exponents, mul/add/sub against 64 partners, sparse line multiplication with every zero pattern of its 3 coefficients. Booth recoding for w in {5,7}: every k < 2^16, every d*2^(wi) and 2^(w(i+1)) - d*2^(wi). G1/G2: [j]P x 4 Jacobian representations + infinity (j incl. lambda, lambda^2 with lambda^2+lambda+1 = 0 mod N: different points with the same y), all ordered pairs through add / sub / add_full / equality, unary ops, scalar multiplication over every Booth (window, digit) combination, boundary scalars and every scalar within 300 (thorough 1200) of 0 and of N, all 37x64 fixed-base table entries. Oracle: polynomial-basis Fp12 = Fp[w]/(w^12+2) and affine big-integer group law.");
+    ctx.set_rule("Fp and mod N: limb-pattern + boundary alphabets, unary ops on all, binary ops on all x extreme (thorough all x all). Fp2: all 24x24 boundary elements, unary on all, binary on all pairs. Fp4: all 6^4 elements over {0,1,p-1,2,seeded x2}, unary on all, binary on all x 64 (thorough all pairs). Fp12: one element per subset of zero components (4096) + basis + +-1: unary ops (sqr, inv, neg, double, triple, div2, Frobenius 1/2/3/6, to_bytes) on all, pow with boundary exponents, mul/add/sub against 64 partners, sparse line multiplication with every zero pattern of its 3 coefficients. Booth recoding for w in {5,7}: every k < 2^16, every d*2^(wi) and 2^(w(i+1)) - d*2^(wi). G1/G2: [j]P x 4 Jacobian representations + infinity (j incl. lambda, lambda^2 with lambda^2+lambda+1 = 0 mod N: different points with the same y), all ordered pairs through add / sub / add_full / equality, unary ops, scalar multiplication over every Booth (window, digit) combination, boundary scalars, the point at infinity as the base, and every scalar within 300 (thorough 1200) of 0 and of N, all 37x64 fixed-base table entries. Oracle: polynomial-basis Fp12 = Fp[w]/(w^12+2) and affine big-integer group law.");
     let mut cases: Vec<Case> = Vec::new();
     let hx = |x: &BigUint| hexbig(x);
     let mut g = SplitMix::new(ctx.seed, "c13");
@@ -916,6 +916,13 @@ pub fn run(ctx: &Arc<Ctx>) {
     let mut sc2 = sc1.clone();
     for i in (0..256usize).step_by(ctx.tier.pick(5, 1)) {
         sc2.push(("2^i".into(), BigUint::one() << i));
+    }
+    // the point at infinity as the base, canonical and non-canonical encodings, G1 and G2
+    for t in [BigUint::one(), BigUint::from(2u32), g.nonzero_below(&pp)] {
+        for k in [BigUint::zero(), BigUint::one(), BigUint::from(2u32), BigUint::from(3u32), BigUint::from(33u32), &n - 1u32, n.clone(), g.below(&n)] {
+            cases.push(Case::G1Mul { base: hx(&t), l: hx(&BigUint::zero()), scalar: hx(&k), tag: "infinity-base".into() });
+            cases.push(Case::G2Mul { base: hx(&t), l: s2(&f2().zero()), scalar: hx(&k), gmul: false, tag: "infinity-base".into() });
+        }
     }
     // every scalar within 300 of 0 and of N (a single (window, digit) coincidence with the accumulator - e.g. the last
     // signed digit meeting a table entry it already holds - sits at one such value), fixed- and variable-base, G1 and G2
